@@ -304,6 +304,15 @@ def handle (line : String) : String :=
     "specfail panic-or-error-in-submission " ++ line
   else
   match fields line with
+  | ["idkbig", n, a, b] =>
+    -- the clock-less tuple is numbered, n other tuples are numbered, the clock-less tuple is numbered again:
+    -- consecutive numbers (`Keeper.update` of another key and `cleanU` leave the epoch entry alone:
+    -- `update_fst_other`, `droppedAt_epoch`)
+    (match a.toNat?, b.toNat? with
+     | some a, some b =>
+       if b == a + 1 then "ok"
+       else s!"specfail idkeeper-epoch-counter-lost-among-{n}-other-tuples first={a} second={b}"
+     | _, _ => "skip parse")
   | ["idk", auto, ops, outs] =>
     match (ops.splitOn ",").mapM parseOp, (outs.splitOn ",").mapM parseOut with
     | some ops, some outs => handleIdk (auto == "1") ops outs
